@@ -57,6 +57,16 @@ ZParseDemands(e, r) ==
     <<"C18.toolong",  (IsFail(r) /\ ~e.ok /\ ~e.panic /\ r.req = {"ErrInputTooLong"}) => SentinelsOK(r, e.is)>>,
     <<"C18.noecho",   (IsFail(r) /\ r.req = {"ErrInputTooLong"}) => ~e.echo>>
   >>
+\* Impl layer against the code (model drift, a note, never a verdict): for a well-formed object
+\* the library's key loop as modelled by SizeJSON!ReaderLoop stops with the same sentinel
+ImplDemands(e) ==
+  IF IsJSONRule(e.rule) /\ e.wf /\ e.doc.k = "obj" /\ Bit(e.rule, RuleEnableJSONObjectForm)
+       /\ ~(zMax # 0 /\ Len(e.in) > zMax)
+  THEN LET x == ReaderLoop(e.doc.members, e.rule, zKeys) IN
+       << <<"X.readerloop_err",  (x.k = "err" /\ x.e # "plain") => (~e.ok /\ x.e \in SeqRange(e.is))>>,
+          <<"X.readerloop_pair", x.k = "pair" => (e.ok <=> IsOk(NewSizeRef("int", x.value, x.unit)))>> >>
+  ELSE <<>>
+
 \* the same demands belong to C08 for text-mode events and to C12 for JSON-mode events
 Prefixed(ds, p) == [i \in 1..Len(ds) |-> IF SubSeq(ds[i][1], 1, 2) = "P." THEN <<p \o SubSeq(ds[i][1], 3, Len(ds[i][1])), ds[i][2]>> ELSE ds[i]]
 
@@ -94,7 +104,7 @@ SizeStep(e) ==
     [] e.op = "size.parse" ->
          LET json == IsJSONRule(e.rule) IN
          /\ SizeParse(e.in, e.rule, IF json THEN e.doc ELSE NoDoc, IF json THEN e.wf ELSE FALSE)
-         /\ Note(Prefixed(ZParseDemands(e, zRet'), IF json THEN "C12." ELSE "C08."))
+         /\ Note(Prefixed(ZParseDemands(e, zRet'), IF json THEN "C12." ELSE "C08.") \o (IF json THEN ImplDemands(e) ELSE <<>>))
     [] e.op = "size.utext" -> SizeUnmarshalText(e.in) /\ Note(UTextDemands(e, zRet', zRecv', e.recv))
     [] e.op = "size.new"   -> UNCHANGED zvars /\ Note(NewDemands(e))
     [] e.op = "size.bytes" -> UNCHANGED zvars /\ Note(BytesDemands(e))
